@@ -59,7 +59,7 @@ HOT = ['sort'] * 6 + ['fromdicts-gen'] * 3 + ['sort-of-sort', 'cache-of-sort',
 def budget(tier):
     if tier == 'quick':
         return {'cases': 10000, 'wall_cap_s': 240}
-    return {'cases': 160000, 'wall_cap_s': 1500}
+    return {'cases': 500000, 'wall_cap_s': 1500}
 
 
 def gen_case(rng, tier, g):
